@@ -878,6 +878,60 @@ def _refresh(prog: Program, run: Run) -> None:
                           f.loc)
 
 
+def _context_window(prog: Program, run: Run, R: str) -> None:
+    """One SnRefContext object is handed through the whole resolution pass.  A field of it that
+    somebody CONSULTS (context.parameters, context.diag_layer, ...) describes the object that
+    is being resolved right now: whoever sets it to itself takes it back (None, or the saved
+    value) on every normal exit, otherwise the next object -- a response after the last request
+    -- is resolved against its predecessor."""
+    read: Dict[str, List[str]] = {}
+    setters: List[Tuple[FuncInfo, str, ast.Assign]] = []
+    for f in prog.iter_functions():
+        if "context" not in f.params():
+            continue
+        for x in walk_no_nested(f.node):
+            if isinstance(x, ast.Attribute) and isinstance(x.value, ast.Name) and \
+                    x.value.id == "context" and isinstance(x.ctx, ast.Load):
+                read.setdefault(x.attr, []).append(f"{f.module.rel}:{x.lineno}")
+            if isinstance(x, ast.Assign) and len(x.targets) == 1 and isinstance(
+                    x.targets[0], ast.Attribute) and isinstance(x.targets[0].value, ast.Name) \
+                    and x.targets[0].value.id == "context":
+                setters.append((f, x.targets[0].attr, x))
+    n = 0
+    for f, fld, st in setters:
+        if isinstance(st.value, ast.Constant) and st.value.value is None:
+            continue
+        cfg = CFG(f.node)
+        sn = cfg.node_of(st)
+        # `if context.F is None: context.F = ...` is the default of an entry point
+        if any(norm_test(t, negate=not pol) == f"context.{fld} is None"
+               for t, pol in cfg.branch_conditions(sn)):
+            continue
+        # compare-only reads (`context.F is None`) do not consult the value
+        consulted = [r for r in read.get(fld, [])]
+        if not consulted:
+            continue
+        n += 1
+        saved = {x.targets[0].id for x in walk_no_nested(f.node) if isinstance(x, ast.Assign) and
+                 ast.unparse(x.value) == f"context.{fld}" and isinstance(x.targets[0], ast.Name)}
+        resets = [x for x in walk_no_nested(f.node) if isinstance(x, ast.Assign) and
+                  ast.unparse(x.targets[0]) == f"context.{fld}" and x is not st and (
+                      isinstance(x.value, ast.Constant) and x.value.value is None or
+                      isinstance(x.value, ast.Name) and x.value.id in saved)]
+        rn = [cfg.node_of(r) for r in resets]
+        if rn and cfg.must_pass(sn, rn, EXIT):
+            run.ok(R, f"{f.module.rel}:{f.qual}", f"context.{fld} is set for the duration of the "
+                   "call and taken back on every normal exit", f"{f.module.rel}:{st.lineno}")
+        else:
+            run.violation(R, f"{f.module.rel}:{f.qual}", f"context-{fld}-left-set",
+                          f"`{stmt_key(st)}` is not taken back on every normal exit, and "
+                          f"context.{fld} is consulted (e.g. {consulted[0]}): the objects "
+                          "resolved afterwards with the same context see this one",
+                          f"{f.module.rel}:{st.lineno}", stmt_key(st))
+    if n < 3:
+        raise AnalysisError(f"context window: only {n} setters of consulted SnRefContext fields")
+
+
 # ----------------------------------------------------------------------- R6
 def _scope(prog: Program, run: Run) -> None:
     R = "C10.R6"
@@ -920,6 +974,7 @@ def _scope(prog: Program, run: Run) -> None:
                                   "context or the object itself", f"{f.module.rel}:{x.lineno}")
     if n < 10:
         raise AnalysisError(f"only {n} resolve_snref calls in _resolve_snrefs methods")
+    _context_window(prog, run, R)
     # DOP search list
     ddds = prog.cls("DiagDataDictionarySpec")
     pi = ddds.methods.get("__post_init__")
@@ -971,6 +1026,35 @@ def _scope(prog: Program, run: Run) -> None:
                       "the parents are not re-targeted recursively with the same context: "
                       "short-name references owned by indirect ancestors keep pointing into the "
                       "previous layer's view", f.loc)
+    # a type test in front of the recursion names every kind of layer that has parents
+    owners = sorted(c.name for c in prog.subclasses("DiagLayer", strict=True)
+                    if prog.lookup(c, "parent_refs") is not None)
+    if len(owners) < 3:
+        raise AnalysisError(f"layer classes with parent_refs: {owners} (expected >= 3)")
+    for r_ in rec:
+        st_ = next((s_ for s_ in walk_no_nested(f.node) if isinstance(s_, ast.Expr) and
+                    s_.value is r_), None)
+        if st_ is None:
+            continue
+        for t, pol in cfg.branch_conditions(cfg.node_of(st_)):
+            for c_ in ast.walk(t):
+                if isinstance(c_, ast.Call) and call_name(c_) == "isinstance" and pol and \
+                        len(c_.args) == 2 and ast.unparse(c_.args[0]) == p[1]:
+                    named = [ast.unparse(e).split(".")[-1] for e in (
+                        c_.args[1].elts if isinstance(c_.args[1], ast.Tuple) else [c_.args[1]])]
+                    covered = {o for o in owners if any(
+                        o == k or k in {b.name for b in prog.mro(prog.cls(o))} for k in named)}
+                    missing = sorted(set(owners) - covered)
+                    if missing:
+                        run.violation(R, "retarget_snrefs", f"parents-of-{missing[0]}-skipped",
+                                      f"the recursion into the parents only happens for "
+                                      f"{named}; {missing} have PARENT-REFs too: ancestors that "
+                                      "are reachable only through such a layer keep the "
+                                      "short-name bindings of the previous resolution",
+                                      f"{f.module.rel}:{c_.lineno}")
+                    else:
+                        run.ok(R, "retarget_snrefs", f"the type test covers {owners}",
+                               f"{f.module.rel}:{c_.lineno}")
     common.g1_literal_attrs(prog, run, "C10.R6", ["odxtools/utils.py"])
 
 
